@@ -87,6 +87,11 @@ func seqOperands(l *loop) []ssa.Value {
 // returns Z's sign from inside the loop; Z == 0: execution continues after the loop.
 func (r *aeRun) enterLoop(fr *frame, l *loop, pred *ssa.BasicBlock) (any, bool, *ssa.BasicBlock) {
 	id := loopID(fr.fn, l)
+	if r.inTail && fr == r.iterFrame {
+		// the code after the analysed loop runs a second loop in the same function: the comparison
+		// is not one position-wise pass, and the lexicographic argument does not apply
+		r.oof("a second loop (%s) runs after the position-wise loop in the same function: not a single position-wise comparison", shortLoopID(id))
+	}
 	sum, ok := r.ctx.lsum[id]
 	if !ok {
 		if r.target != nil {
